@@ -1042,3 +1042,27 @@ pub trait DecodeHooks {
         buf: &mut crate::audio::Frame,
     ) -> Result<(), crate::Error>;
 }
+
+/// bit-serial CRC, MSB first, zero initial value, no final xor: the textbook
+/// shift register for a polynomial of the given width (independent of src/crc.rs)
+pub fn ref_crc_bits(poly: u32, width: u32, data: &[u8], len: usize) -> u32 {
+    let mask = if width == 32 { u32::MAX } else { (1u32 << width) - 1 };
+    let mut reg: u32 = 0;
+    let mut i = 0;
+    while i < data.len() {
+        if i < len {
+            let mut bit = 0;
+            while bit < 8 {
+                let inbit = ((data[i] >> (7 - bit)) & 1) as u32;
+                let fb = ((reg >> (width - 1)) & 1) ^ inbit;
+                reg = (reg << 1) & mask;
+                if fb == 1 {
+                    reg ^= poly & mask;
+                }
+                bit += 1;
+            }
+        }
+        i += 1;
+    }
+    reg
+}
